@@ -94,7 +94,7 @@ def renderAddr : Addr → String
   | .tcp6 ip p => s!"t6:{hx ip}:{p}"
   | .onionV2 h p => s!"o2:{hx h}:{p}"
   | .onionV3 h p => s!"o3:{hx h}:{p}"
-  | .opaque pl => s!"op:{hx pl}"
+  | .unknown pl => s!"op:{hx pl}"
 
 def renderAddrs (as : List Addr) : String := if as.isEmpty then "." else joinWith ";" (as.map renderAddr)
 
